@@ -1,6 +1,6 @@
 //! C08 — instruction encoding: `Instruction::try_from(u32)`, `u32::from(Instruction)`, `op::X::new`,
 //! `unpack()`, `op::X::from_raw_args`, `Opcode::try_from(u8)` against the spec predicate and the Lean model.
-use crate::{ctx::Ctx, gen::instr_gen as g};
+use crate::{ctx::Ctx, gen::{instr_gen as g, vmstep}};
 use fuel_asm::{Instruction, Opcode};
 
 fn row(op: u8) -> Option<&'static (u8, &'static str, &'static [u8])> {
@@ -89,7 +89,55 @@ fn newop(ctx: &mut Ctx, op: u8, args: &[u32]) {
     ctx.emit(format!("new {op} {}", fmt_args(args)).trim_end(), &format!("{w}"));
 }
 
+/// the interpreter's own dispatch (`Interpreter::instruction`: `Opcode::try_from(raw[0])`, then the per-opcode
+/// `execute_op!` parser): a word the general decoder rejects must panic `InvalidInstruction` with every
+/// register unchanged (added after seeded change C08-2, which made the VM skip the parser for one opcode)
+fn vm_reject(ctx: &mut Ctx, vm: &mut vmstep::Vm, w: u32) {
+    let regs = vmstep::base_regs();
+    let r = ctx.guard(|| vmstep::step(vm, &regs, w));
+    let out = match r {
+        Ok((st, after)) => {
+            if st != "InvalidInstruction" {
+                ctx.oracle_fail("vm-executes-word-the-decoder-rejects", &format!("vm {w}"), &format!("word {w:#010x}: Instruction::try_from rejects it, Interpreter::instruction answered {st}"));
+            } else if after != regs {
+                ctx.oracle_fail("vm-invalid-instruction-changed-registers", &format!("vm {w}"), &vmstep::fmt_diff(&regs, &after));
+            }
+            if st == "InvalidInstruction" { "InvalidInstruction".to_string() } else { "accepted".to_string() }
+        }
+        Err(p) => { ctx.oracle_fail("vm-host-panic-on-invalid-word", &format!("vm {w}"), &p); "panic".to_string() }
+    };
+    ctx.count("vm.rejected-word");
+    ctx.emit(&format!("vm {w}"), &out);
+}
+
 pub fn run(ctx: &mut Ctx) {
+    // 0. interpreter dispatch on words the decoder rejects: every defined opcode with each reserved bit set
+    //    alone / all set / random reserved garbage, and every undefined opcode byte
+    {
+        let mut vm = vmstep::new_vm();
+        for op in 0u32..256 {
+            let base = op << 24;
+            match row(op as u8) {
+                None => { vm_reject(ctx, &mut vm, base); vm_reject(ctx, &mut vm, base | 0x00FF_FFFF); let rw = ctx.rng.next() as u32 & 0x00FF_FFFF; vm_reject(ctx, &mut vm, base | rw); }
+                Some(r) => {
+                    let free = 24 - shape_bits(r);
+                    for k in 0..free { vm_reject(ctx, &mut vm, base | (1 << k)); }
+                    if free > 0 {
+                        vm_reject(ctx, &mut vm, base | ((1u32 << free) - 1));
+                        for _ in 0..ctx.n(3, 30) {
+                            let args = (ctx.rng.next() as u32 & 0x00FF_FFFF) >> free << free;
+                            let junk = 1 + (ctx.rng.next() as u32 % ((1u32 << free) - 1).max(1));
+                            vm_reject(ctx, &mut vm, base | args | (junk & ((1u32 << free) - 1)).max(1));
+                        }
+                    }
+                }
+            }
+        }
+        // a valid word must not be reported as InvalidInstruction
+        let regs = vmstep::base_regs();
+        let (st, _) = vmstep::step(&mut vm, &regs, 0x4700_0000);
+        if st != "ok" { ctx.oracle_fail("vm-rejects-valid-noop", "vm 1191182336", &st); }
+    }
     // 1. per opcode byte (all 256): structured low-24-bit patterns
     for op in 0u32..256 {
         let base = op << 24;
